@@ -51,6 +51,8 @@ type Spec struct {
 	ThoroughBudget time.Duration
 	// MaxShards caps the number of worker processes (0 = NumCPU).
 	MaxShards int
+	// MaxViolations caps the distinct violation keys kept per shard (0 = 400).
+	MaxViolations int
 	// MaxConfirm caps how many fresh violations are re-executed 5x in fresh
 	// processes before being reported (0 = 25); the rest are reported as found.
 	MaxConfirm int
@@ -173,7 +175,11 @@ func (c *Ctx) Violate(key, msg, kind string, cs interface{}) {
 			return
 		}
 	}
-	if len(c.violations) >= 400 {
+	max := 400
+	if c.Spec != nil && c.Spec.MaxViolations > 0 {
+		max = c.Spec.MaxViolations
+	}
+	if len(c.violations) >= max {
 		c.counters["violations_dropped"]++
 		return
 	}
@@ -392,33 +398,53 @@ type Finding struct {
 }
 
 func loadFindings(id string) []Finding {
-	f, err := os.Open(filepath.Join(VerifDir, "known_findings.jsonl"))
-	if err != nil {
-		return nil
-	}
-	defer f.Close()
 	var out []Finding
-	sc := bufio.NewScanner(f)
-	sc.Buffer(make([]byte, 1<<20), 1<<24)
-	for sc.Scan() {
-		line := strings.TrimSpace(sc.Text())
-		if line == "" || strings.HasPrefix(line, "#") {
+	files, _ := filepath.Glob(filepath.Join(VerifDir, "known_findings*.jsonl"))
+	sort.Strings(files)
+	for _, fn := range files {
+		f, err := os.Open(fn)
+		if err != nil {
 			continue
 		}
-		var fd Finding
-		if err := json.Unmarshal([]byte(line), &fd); err != nil {
-			fmt.Fprintln(os.Stderr, "known_findings.jsonl: bad line:", err)
-			continue
+		sc := bufio.NewScanner(f)
+		sc.Buffer(make([]byte, 1<<20), 1<<24)
+		for sc.Scan() {
+			line := strings.TrimSpace(sc.Text())
+			if line == "" || strings.HasPrefix(line, "#") {
+				continue
+			}
+			var fd Finding
+			if err := json.Unmarshal([]byte(line), &fd); err != nil {
+				fmt.Fprintln(os.Stderr, filepath.Base(fn)+": bad line:", err)
+				continue
+			}
+			if fd.Property == id && fd.Status == "known" {
+				out = append(out, fd)
+			}
 		}
-		if fd.Property == id && fd.Status == "known" {
-			out = append(out, fd)
-		}
+		f.Close()
 	}
 	return out
 }
 
+var findingIndex map[string]int
+
 func matchFinding(fs []Finding, key string) *Finding {
+	if findingIndex == nil {
+		findingIndex = map[string]int{}
+		for i := range fs {
+			if fs[i].Key != "" {
+				findingIndex[fs[i].Key] = i
+			}
+		}
+	}
+	if i, ok := findingIndex[key]; ok {
+		return &fs[i]
+	}
 	for i := range fs {
+		if fs[i].Prefix == "" {
+			continue
+		}
 		if fs[i].Key != "" && fs[i].Key == key {
 			return &fs[i]
 		}
